@@ -113,8 +113,26 @@ func goEnvOld() []string {
 	return out
 }
 
+func firstLineOf(msgs []string) string {
+	if len(msgs) == 0 {
+		return ""
+	}
+	m := msgs[0]
+	if i := strings.Index(m, "\n"); i >= 0 {
+		m = m[:i]
+	}
+	return m
+}
+
 // GoEnv is exported for the driver (native replay uses the same toolchain).
 func GoEnv() []string { return goEnv() }
+
+// ExcludedHarnessFiles: harness files that do not type-check against the tree
+// under check (e.g. they name an internal symbol the tree no longer has). They
+// are left out -- for the engine and for the native build alike -- so that one
+// broken harness does not blind every other check; what was left out is
+// reported as INCONCLUSIVE.
+var ExcludedHarnessFiles = map[string]bool{}
 
 // OverlayFiles maps harness sources into the repo directory.
 func OverlayFiles(repo, hdir string, includeTests bool) (map[string]string, error) {
@@ -131,6 +149,9 @@ func OverlayFiles(repo, hdir string, includeTests bool) (map[string]string, erro
 		if strings.HasSuffix(n, "_test.go") && !includeTests {
 			continue
 		}
+		if ExcludedHarnessFiles[n] {
+			continue
+		}
 		m[filepath.Join(repo, "zz_vh_"+n)] = filepath.Join(hdir, n)
 	}
 	return m, nil
@@ -138,41 +159,63 @@ func OverlayFiles(repo, hdir string, includeTests bool) (map[string]string, erro
 
 func Load(opt Options) (*Engine, error) {
 	t0 := time.Now()
-	ov, err := OverlayFiles(opt.RepoDir, opt.HarnessDir, false)
-	if err != nil {
-		return nil, err
-	}
-	overlay := map[string][]byte{}
-	for virt, real := range ov {
-		b, err := os.ReadFile(real)
+	var pkgs []*packages.Package
+	for attempt := 0; ; attempt++ {
+		ov, err := OverlayFiles(opt.RepoDir, opt.HarnessDir, false)
 		if err != nil {
 			return nil, err
 		}
-		overlay[virt] = b
-	}
-	cfg := &packages.Config{
-		Mode:       packages.LoadAllSyntax,
-		Dir:        opt.RepoDir,
-		BuildFlags: []string{"-tags=verif"},
-		Overlay:    overlay,
-		Env:        goEnv(),
-	}
-	pkgs, err := packages.Load(cfg, ".")
-	if err != nil {
-		return nil, err
-	}
-	nerr := 0
-	var msgs []string
-	packages.Visit(pkgs, nil, func(p *packages.Package) {
-		for _, e := range p.Errors {
-			nerr++
-			if len(msgs) < 20 {
-				msgs = append(msgs, e.Error())
+		overlay := map[string][]byte{}
+		for virt, real := range ov {
+			b, err := os.ReadFile(real)
+			if err != nil {
+				return nil, err
 			}
+			overlay[virt] = b
 		}
-	})
-	if nerr > 0 {
-		return nil, fmt.Errorf("HARNESS-BUILD-FAILED: %d errors loading package with harness overlay:\n%s", nerr, strings.Join(msgs, "\n"))
+		cfg := &packages.Config{
+			Mode:       packages.LoadAllSyntax,
+			Dir:        opt.RepoDir,
+			BuildFlags: []string{"-tags=verif"},
+			Overlay:    overlay,
+			Env:        goEnv(),
+		}
+		pkgs, err = packages.Load(cfg, ".")
+		if err != nil {
+			return nil, err
+		}
+		nerr := 0
+		var msgs []string
+		bad := map[string]bool{}
+		packages.Visit(pkgs, nil, func(p *packages.Package) {
+			for _, e := range p.Errors {
+				nerr++
+				if len(msgs) < 20 {
+					msgs = append(msgs, e.Error())
+				}
+				// errors located in a harness file other than the shared vh_*.go helpers
+				pos := e.Pos
+				if i := strings.Index(pos, ":"); i > 0 {
+					base := filepath.Base(pos[:i])
+					if strings.HasPrefix(base, "zz_vh_") {
+						name := strings.TrimPrefix(base, "zz_vh_")
+						if !strings.HasPrefix(name, "vh_") {
+							bad[name] = true
+						}
+					}
+				}
+			}
+		})
+		if nerr == 0 {
+			break
+		}
+		if len(bad) == 0 || attempt >= 8 {
+			return nil, fmt.Errorf("HARNESS-BUILD-FAILED: %d errors loading package with harness overlay:\n%s", nerr, strings.Join(msgs, "\n"))
+		}
+		for n := range bad {
+			ExcludedHarnessFiles[n] = true
+			fmt.Printf("INCONCLUSIVE: harness file %s does not build against this tree and is left out (%s)\n", n, firstLineOf(msgs))
+		}
 	}
 	prog, spkgs := ssautil.AllPackages(pkgs, ssa.InstantiateGenerics)
 	prog.Build()
